@@ -15,7 +15,7 @@ NOTES = {
             'premises: TInv, IInv (proved for every reachable state), KInv (proved for reachable states of histories whose updates keep the key attributes, cf. known finding C13-2), the request\'s expressions evaluate without error; non-vacuity witnesses in coq/theories/Witness/W04.v; resume-after-deleted-boundary on indexes is covered by the page stream (the theorem there follows the LastEvaluatedKey chain of an unchanged table)'),
     'C06': ('precedence chain from the generated tables; missing-attribute, type-sensitivity, ordering, NULL-exists and connective laws for all values',
             'a DynamoDB reference semantics is not available offline: the laws are those the property text states; BETWEEN/IN on paths and size() on sets are known findings'),
-    'C07': ('frame theorem: attributes no action targets keep their value (through the evaluator representation) for every update expression, item and bindings; removed means gone; SET stores a copy',
+    'C07': ('frame theorem: attributes no action targets keep their value (through the evaluator representation) for every update expression, item and bindings, an attribute named like a value placeholder of the request is kept exactly; removed means gone; SET stores a copy; plain values pass through unchanged',
             'right-hand sides see earlier actions of the same expression (known finding C07-1); ADD on nested paths ignored (C07-2)'),
     'C09': ('totality: both parsers return a tree and an error count for EVERY byte string (fuel adequacy by a measure on the unconsumed input, mutual induction over the nine parse functions; uses the generated tables: no parse function registered for EOF, no single-character token or keyword of type EOF), hence Match/Update always end in a verdict/item or a syntax/unsupported error; strictness (accepted => fully consumed; BETWEEN / "." / "[" operands are identifier tokens, IN requires its parenthesis, or an error is recorded; the formerly accepted dangling sentences are syntax errors), lone identifier rejected, keywords case-sensitive, rejections surface as panic/error with unchanged table',
             'the absence of Go runtime faults (nil dereference, index out of range) is a property of the Go code, not of the model: it is covered by the correspondence on the malformed/expr/update streams, where a runtime panic of the implementation is a mismatch (five such panics were found and fixed)'),
